@@ -148,6 +148,19 @@ def make_methods(log: Log, is_async: bool) -> Dict[str, Callable[..., Any]]:
 
     fac['slow'] = a_slow if is_async else slow
 
+    def whoami(ctx):
+        log.calls.append(('whoami', (), {}))
+        log.contexts.append(ctx)
+        return [getattr(ctx, 'token', None)]
+
+    def ctxp(ctx, a=0):
+        log.calls.append(('ctxp', (a,), {}))
+        log.contexts.append(ctx)
+        return [getattr(ctx, 'token', None), a]
+
+    fac['whoami'] = whoami
+    fac['ctxp'] = ctxp
+
     if not is_async:
         return dict(fac, ok=ok, noargs=noargs, echo=echo, kwonly=kwonly, rpcerr=rpcerr, typed=typed, boom=boom, ctxm=ctxm)
 
@@ -195,7 +208,7 @@ def make_view(log: Log, is_async: bool):
     return ProbeView
 
 
-METHOD_NAMES = ('slow', 'fac1', 'fac2', 'ok', 'noargs', 'echo', 'kwonly', 'rpcerr', 'typed', 'boom', 'ctxm', 'view.vm')
+METHOD_NAMES = ('whoami', 'ctxp', 'slow', 'fac1', 'fac2', 'ok', 'noargs', 'echo', 'kwonly', 'rpcerr', 'typed', 'boom', 'ctxm', 'view.vm')
 
 
 class World:
@@ -207,8 +220,10 @@ class World:
         coro = is_async if all_coroutines is None else all_coroutines
         registry = pjrpc.server.MethodRegistry()
         for name, fn in make_methods(self.log, coro).items():
-            if name == 'ctxm':
+            if name in ('ctxm', 'whoami'):
                 registry.add(fn, name, context='ctx')
+            elif name == 'ctxp':
+                registry.add(fn, name, context='ctx', positional=True)
             else:
                 registry.add(fn, name)
         registry.view(make_view(self.log, coro), context='context', prefix='view')
